@@ -13,3 +13,5 @@ import (
 const verifEnabled = false
 
 var verifDialHook func(ctx context.Context, local, remote netip.Addr, port int) (net.Conn, error)
+
+var verifFSMHook func(remote netip.Addr, outbound bool)
